@@ -344,6 +344,61 @@ FamDyn(K, CH) ==
           \cup {ScnT(gr, <<Build(<<t>>, 2, 1), c, Build(Roots(gr), 2, 1), Build(Roots(gr), 2, 1)>>, "dyn") : t \in Pick(2, AllOutsG(gr)), c \in Pick(CH, Changes(gr))} :
           gr \in UNION {DynVariants(x) : x \in DynGraphs} }
 
+(***************************************************************************)
+(* C17: graphs with back edges.  Statement i may take any output (its own   *)
+(* and later ones too) as explicit / implicit / order-only input; cycles    *)
+(* can also be closed by a recorded dependency (header = a downstream       *)
+(* output, known after the first build) and by dyndep information.          *)
+(***************************************************************************)
+AvailC(i, n) == {"s1"} \cup {O(j) : j \in 1..n}
+SkelC(i, n, km, ph) ==
+  LET own(a) == a = O(i) IN
+  \* kinds are drawn from 0..7: 0-4 none, 5 explicit, 6 implicit, 7 order-only (sparser back edges)
+  Sk(SetToSeq({a \in AvailC(i, n) : km[a] = 5 /\ ~(ph /\ own(a))}), SetToSeq({a \in AvailC(i, n) : km[a] = 6 /\ ~(ph /\ own(a))}),
+     SetToSeq({a \in AvailC(i, n) : km[a] = 7 /\ ~(ph /\ own(a))}), <<>>,
+     ph /\ \E a \in AvailC(i, n) : km[a] \in {5, 6} /\ ~own(a))
+RandSkelsC(i, n, k) == { SkelC(i, n, km, ph = 0) : km \in RandomSubset(k, [AvailC(i, n) -> 0..7]), ph \in RandomSubset(1, {0, 1, 2, 3}) }
+MkC(i, sk, pr, n) ==
+  LET m == Mk(i, sk, IF pr = "hdrback" THEN "plain" ELSE pr) IN
+  IF pr = "hdrback" /\ ~sk.phony THEN [m EXCEPT !.deps = "gcc", !.hdrs = <<O(IF i = n THEN 1 ELSE i + 1)>>] ELSE m
+CycGraphs(R) ==
+  UNION { { Graph(<<MkC(1, a, pa[1], 3), MkC(2, b, pa[2], 3), MkC(3, c, pa[3], 3)>>) :
+              a \in RandSkelsC(1, 3, 2), b \in RandSkelsC(2, 3, 2), c \in RandSkelsC(3, 3, 2), pa \in RandomSubset(2, [1..3 -> {"plain", "two", "restat", "hdrback"}]) } : r \in 1..R }
+DynCycGraphs == {
+  Graph(<< [St1(1, <<"dd">>, <<"s1">>, <<>>) EXCEPT !.mkdd = "dd"],
+           [St1(2, <<"o2">>, <<"s1">>, <<"dd">>) EXCEPT !.dd = "dd", !.ddi = <<"o3">>],
+           St1(3, <<"o3">>, <<"o2">>, <<>>) >>),
+  Graph(<< [St1(1, <<"o1">>, <<"s1">>, <<"dd">>) EXCEPT !.dd = "dd", !.ddi = <<"o2">>],
+           St1(2, <<"o2">>, <<"o1">>, <<>>) >>),
+  Graph(<< [St1(1, <<"dd">>, <<"s1">>, <<>>) EXCEPT !.mkdd = "dd"],
+           [St1(2, <<"o2">>, <<"s1">>, <<"dd">>) EXCEPT !.dd = "dd", !.ddo = <<"x2">>],
+           [St1(3, <<"o3">>, <<"s1">>, <<"dd">>) EXCEPT !.dd = "dd", !.ddi = <<"x2">>, !.ddo = <<"x3">>],
+           St1(4, <<"o4">>, <<"o3">>, <<>>) >>) }
+FamCyc(K, CH) ==
+  UNION { {Scn(gr, <<Build(t, j, 1), Build(t, j, 1)>>) : j \in {1, 2}, t \in {<<o>> : o \in AllOutsG(gr)} \cup {SetToSeq(AllOutsG(gr))}} :
+          gr \in CycGraphs(K) \cup DynCycGraphs }
+
+(***************************************************************************)
+(* C19 (dry run) and C01 (edits while commands run).                        *)
+(***************************************************************************)
+DryShapes == {"chain2", "chain3", "fanin", "fanout", "mixed", "alias", "implicit", "oonly", "valid", "group"}
+FamDry(K, CH) ==
+  UNION { {Scn(gr, <<Build(Roots(gr), 2, 1), c, BX(Roots(gr), 2, 1, [dry |-> TRUE]), Build(Roots(gr), 2, 1), Build(Roots(gr), 2, 1)>>) : c \in Pick(CH, Changes(gr))}
+          \cup {Scn(gr, <<BX(Roots(gr), 2, 1, [dry |-> TRUE]), Build(Roots(gr), 2, 1)>>)}
+          \cup {Scn(gr, <<BuildF(Roots(gr), 2, 0, FailRec(S, 1, TRUE)), BX(Roots(gr), 2, 1, [dry |-> TRUE]), Build(Roots(gr), 2, 1), Build(Roots(gr), 2, 1)>>) : S \in Pick(2, FailSets(gr))}
+          \* ninja died while commands were running (they may finish on their own and leave outputs and depfiles behind), then a dry run
+          \cup {Scn(gr, <<BX(Roots(gr), 2, 1, [crash |-> [point |-> "start", n |-> n]]), BX(Roots(gr), 2, 1, [dry |-> TRUE]), Build(Roots(gr), 2, 1), Build(Roots(gr), 2, 1)>>) : n \in {1, 2}} :
+          gr \in UNION {GraphsS(sh, {"plain", "restat", "gcc", "depfile", "two", "rsp", "gen", "msvc"}, K) : sh \in DryShapes} }
+
+\* a source is edited right after the k-th command start of the second build
+EditRunProfiles == {"plain", "two", "gcc", "depfile", "rsp", "iout"}
+FamEditRun(K, CH) ==
+  UNION { {Scn(gr, <<Build(Roots(gr), 2, 1), c, BX(Roots(gr), j, 1, [editrun |-> <<[k |-> k, f |-> f]>>]), Build(Roots(gr), 2, 1), Build(Roots(gr), 2, 1)>>) :
+              j \in {1, 2}, k \in {1, 2}, f \in ToSet(gr.srcs), c \in Pick(CH, ChangesET(gr))}
+          \cup {Scn(gr, <<BX(Roots(gr), j, 1, [editrun |-> <<[k |-> k, f |-> f]>>]), Build(Roots(gr), 2, 1), Build(Roots(gr), 2, 1)>>) :
+              j \in {1, 2}, k \in {1, 2, 3}, f \in ToSet(gr.srcs)} :
+          gr \in UNION {GraphsS(sh, EditRunProfiles, K) : sh \in {"chain2", "chain3", "fanin", "fanout", "mixed", "alias", "implicit", "diamond", "group"}} }
+
 ParK == IF "K" \in DOMAIN IOEnv THEN atoi(IOEnv.K) ELSE 3
 ParCH == IF "CH" \in DOMAIN IOEnv THEN atoi(IOEnv.CH) ELSE 3
 
@@ -354,6 +409,9 @@ Family(name) ==
     [] name = "sched" -> FamSched(ParK, ParCH)
     [] name = "fail" -> FamFail(ParK, ParCH)
     [] name = "rand" -> FamRand(ParK, ParCH)
+    [] name = "dry" -> FamDry(ParK, ParCH)
+    [] name = "editrun" -> FamEditRun(ParK, ParCH)
+    [] name = "cyc" -> FamCyc(ParK, ParCH)
     [] name = "twin" -> FamTwin(ParK, ParCH)
     [] name = "dyn" -> FamDyn(ParK, ParCH)
     [] name = "pools" -> FamPools(ParK, ParCH)
